@@ -48,7 +48,9 @@ class CreateDatabase(ASTNode):
             engine_str = f'ENGINE = {repr(self.engine)} '
 
         parameters_str = ''
-        if self.parameters:
-            parameters_str = f', PARAMETERS = {json.dumps(self.parameters)}'
+        if self.parameters is not None:
+            # an empty PARAMETERS {} is part of the tree too (`parameters={}` vs `None`); without ENGINE no comma is read
+            comma = ',' if engine_str else ''
+            parameters_str = f'{comma} PARAMETERS = {json.dumps(self.parameters)}'
         out_str = f'CREATE{replace_str} DATABASE {"IF NOT EXISTS " if self.if_not_exists else ""}{self.name.to_string()} {engine_str}{parameters_str}'
         return out_str
